@@ -60,7 +60,7 @@ LIN_CFG = "SPECIFICATION LSpec\nINVARIANT NotLinearized\nCHECK_DEADLOCK FALSE\n"
 
 
 def record_history(sdk, scenario, seed, g, n, workdir, race=True):
-    out = os.path.join(workdir, "hist-%s-%s-%d.ndjson" % (sdk, scenario, seed))
+    out = os.path.join(workdir, "hist-%s-%s-%d%s.ndjson" % (sdk, scenario, seed, "" if race else "-norace"))
     env = dict(os.environ, GORACE="exitcode=0 halt_on_error=0")
     try:
         p = subprocess.run([os.path.join(BUILD, "conc-race" if race else "conc"), "-sdk", sdk, "-scenario", scenario, "-seed", str(seed), "-g", str(g),
